@@ -16,7 +16,9 @@ let kind (e : n) : string =
 let letter (e : n) : string =
   match int_of_n e with 1 -> "T" | 2 -> "S" | 3 -> "B" | k when k >= 16 -> "I" | _ -> "?"
 let conv_kind (e : n) : string =
-  match int_of_n e with 1 -> "Trailing" | 2 -> "Short" | 4 -> "Illegal" | _ -> "Other"
+  match int_of_n e with 1 -> "Trailing" | 2 -> "Short" | 4 -> "Illegal" | 5 -> "BadEscape" | 6 -> "TooLong" | _ -> "Other"
+let str_kind (e : n) : string =
+  match int_of_n e with 6 -> "TooLong" | _ -> kind e
 let show_res errk f (o : 'a outcome) : string =
   match o with
   | Ok a -> "Ok " ^ f a
@@ -62,6 +64,20 @@ let handle = function
   | ["pushcap64"; c; a] -> pushcap c18_pushcap64 c a
   | ["pushcap32"; c; a] -> pushcap c18_pushcap32 c a
   | ["pushcap16"; c; a] -> pushcap c18_pushcap16 c a
+  | ["tok64"; a] -> show_res conv_kind hex_of_bytes (c18_tok64 (text_of_arg a))
+  | ["tok32"; a] -> show_res conv_kind hex_of_bytes (c18_tok32 (text_of_arg a))
+  | ["tok16"; a] -> show_res conv_kind hex_of_bytes (c18_tok16 (text_of_arg a))
+  | "ent64" :: l -> conv c18_ent64 l
+  | "ent32" :: l -> conv c18_ent32 l
+  | "ent16" :: l -> conv c18_ent16 l
+  | ["saltstr"; a] -> show_res str_kind hex_of_bytes (c18_saltstr (text_of_arg a))
+  | ["saltscan"; a] -> show_res conv_kind hex_of_bytes (c18_saltscan (text_of_arg a))
+  | ["saltdisp"; a] -> let b = bytes_of_hex a in
+      if List.length b > 255 then "Err TooLong" else show_res kind arg_of_text (c18_saltdisp b)
+  | ["hashstr"; a] -> show_res str_kind hex_of_bytes (c18_hashstr (text_of_arg a))
+  | ["hashscan"; a] -> show_res conv_kind hex_of_bytes (c18_hashscan (text_of_arg a))
+  | ["hashdisp"; a] -> let b = bytes_of_hex a in
+      if List.length b > 255 then "Err TooLong" else show_res kind arg_of_text (c18_hashdisp b)
   | "conv64" :: l -> conv c18_conv64 l
   | "conv32" :: l -> conv c18_conv32 l
   | "conv16" :: l -> conv c18_conv16 l
